@@ -308,7 +308,7 @@ func (rc *replayCtx) build(s string, t types.Type, depth int) (rvalue, error) {
 		var pre []string
 		for i := 0; i < ut.NumFields(); i++ {
 			f := ut.Field(i)
-			fv, err := rc.build(fmt.Sprintf("(%s.%s %s)", name, sanitize(f.Name()), s), f.Type(), depth+1)
+			fv, err := rc.build(fmt.Sprintf("(%s.%s %s)", name, fldName(f, i), s), f.Type(), depth+1)
 			if err != nil {
 				// fields we cannot build keep their zero value
 				rc.notes = append(rc.notes, fmt.Sprintf("field %s left zero: %v", f.Name(), err))
@@ -640,7 +640,7 @@ func (rc *replayCtx) preferSmall() {
 			name := c.sortOf(t)
 			for i := 0; i < ut.NumFields(); i++ {
 				f := ut.Field(i)
-				walk(fmt.Sprintf("(%s.%s %s)", name, sanitize(f.Name()), term), f.Type(), depth+1)
+				walk(fmt.Sprintf("(%s.%s %s)", name, fldName(f, i), term), f.Type(), depth+1)
 			}
 		case *types.Pointer:
 			if _, isStruct := ut.Elem().Underlying().(*types.Struct); isStruct {
